@@ -23,7 +23,7 @@ class Stream(Family):
     rule = ('random well-ordered call sequences (0-1 main preamble/meta, 1-3 changes with optional preamble/meta, 1-3 '
             'files with meta and optional diff), per-section encodings from 10 codecs + 20 alias spellings, indent in '
             '{default,None,0,1,2,4,7}, line_endings in {unset,unix,dos}, hostile texts (header/hunk look-alikes, BOM, '
-            'NUL, lone CR, misaligned UTF-16 newline bytes); non-trivial = at least two containers at one level or a '
+            'NUL, lone CR, misaligned UTF-16 newline bytes), metadata with tuples and private-use / astral keys; non-trivial = at least two containers at one level or a '
             'non-default encoding or non-ASCII text; distinct by the whole call list')
 
     def cases(self, tier, rng, prop_id):
@@ -320,7 +320,8 @@ class Calls(Family):
     rule = ('every sequence over {new_change,new_file,write_preamble,write_meta,write_diff} with valid arguments up to '
             'a bounded length (exhaustive), plus every way of replacing one call of every shorter sequence by one of 26 '
             'invalid-argument variants followed by every valid continuation of length <= 2, plus random longer '
-            'sequences; non-trivial = at least one accepted and one rejected call; distinct by the call list')
+            'sequences, encodability-acceptance cases (incl. wide codecs and hostile texts), modal codecs, writers with NO '
+            'encoding in force; non-trivial = at least one accepted and one rejected call; distinct by the call list')
 
     def cases(self, tier, rng, prop_id):
         import itertools
@@ -358,6 +359,17 @@ class Calls(Family):
         # nearest declared encoding (own, else the innermost enclosing container that declares one, else the main one)
         for i in range(300 if tier == 'quick' else 6000):
             yield gen_enc_accept(rng)
+        # a writer with NO encoding in force (valid: content is then bytes): text calls without an encoding of their own cannot
+        # be written and must be rejected as a whole, whatever their indent; with one of their own they are written
+        for own in (None, 'utf-8', 'utf-16'):
+            for ind in ('omitted', {'i': 0}, None, {'i': 2}):
+                for le in (None, sl.S('unix'), sl.S('dos')):
+                    wp = ['write_preamble', sl.S('hello\nworld\n'), sl.S(own) if own else None, ind, le, None]
+                    yield dict(kind='noenc', main=None, must=[], calls=[wp, wp, ['new_change', None], wp, ['new_file', None],
+                                                                       ['write_meta', {'d': {'k': 1}}, None, 'omitted'],
+                                                                       ['write_diff', sl.Bv(b'-a\n+b\n'), None, None, None]])
+                    yield dict(kind='noenc', main=None, must=[], calls=[['new_change', None], wp, wp, ['write_meta', {'d': {'k': 1}}, None, 'omitted'],
+                                                                       ['new_file', None], wp, ['write_meta', {'d': {'k': 1}}, None, 'omitted']])
         # stateful (modal) codecs: a REJECTED text call must leave nothing behind in the writer, so the calls accepted
         # afterwards write what a writer that never saw the rejected call writes (the model does not execute these
         # codecs and discards the comparison; the atomicity oracle runs on the implementation)
@@ -386,11 +398,11 @@ class Calls(Family):
 
     def _impl(self, c):
         if '_impl' not in c:
-            c['_impl'] = sl.run_writer(sl.S(c['main']), sl.S('1.0'), c['calls'])
+            c['_impl'] = sl.run_writer(sl.S(c['main']) if c['main'] is not None else None, sl.S('1.0'), c['calls'])
         return c['_impl']
 
     def model_line(self, c):
-        return sl.write_model_line(sl.S(c['main']), sl.S('1.0'), c['calls'])
+        return sl.write_model_line(sl.S(c['main']) if c['main'] is not None else None, sl.S('1.0'), c['calls'])
 
     def impl_obs(self, c):
         return self._impl(c)[0]
@@ -498,7 +510,7 @@ class Foreign(Family):
             'blank/whitespace lines, CRLF headers, compact/pretty JSON, BOM or BOM-free text, undeclared line endings), '
             'their single-defect mutations from the C03 catalogue (invalid JSON also at the byte level, also with no '
             'encoding in force), and copies with 1-4 unknown options inserted (also read through BufferedReader / a real '
-            'file with a later header placed across the buffer edge); '
+            'file with a later header placed across the buffer edge; keys named like the methods of Python containers); '
             'non-trivial = at least 4 sections; distinct by file bytes')
 
     def cases(self, tier, rng, prop_id):
@@ -531,6 +543,22 @@ class Foreign(Family):
                 for _ in range(2):
                     g, added = gf.add_unknown_options(f, rng)
                     yield dict(kind='unknown-options', file=g, base=f, added={str(k): v for k, v in added.items()})
+                if i == 0:
+                    # names of the methods and attributes of Python's own containers and strings (an options mapping that is
+                    # also used as an object, a namespace or keyword arguments gives these a meaning), as the first option of
+                    # every header
+                    names = set()
+                    for ty in (dict, list, str, bytes, object, type, int):
+                        names |= {n for n in dir(ty) if _re.fullmatch(r'[A-Za-z][A-Za-z0-9_-]*', n)}
+                    names |= {'self', 'cls', 'args', 'kwargs', 'None', 'True', 'False', 'print', 'len', 'id', 'class', 'def', 'lambda', 'import'}
+                    names -= {'version', 'encoding', 'length', 'indent', 'line_endings', 'format', 'type', 'mimetype'}   # interpreted
+                    for key in sorted(names):
+                        for k in range(len(f['sections'])):
+                            if key in {o[0] for o in f['sections'][k]['opts']}:
+                                continue
+                            g = json.loads(json.dumps(f))
+                            g['sections'][k]['opts'].insert(0, [key, '1'])
+                            yield dict(kind='unknown-options', file=g, base=f, added={str(k): {key: 1}})
                 if i % 6 == 0:
                     # other stream kinds (BufferedReader, real file): an unknown option on the main header long enough to
                     # push a later header across the stream's buffer edge (it starts d bytes before the edge, its newline
@@ -1902,6 +1930,8 @@ class Fuzz(Family):
                      ('..file', [], None), ('...meta', [], b'{}\n'), ('...diff', [], b'x\n')]
         grid_keys = ['encoding', 'length', 'indent', 'line_endings', 'format', 'version', 'type', 'mimetype', 'x', 'x%y', '%s', 'k{0}']
         grid_vals = ['5', '0', '-1', '007', 'abc', '1_0', 'True', 'None', 'x/y', 'utf-16', 'dos', '9' * 4301,
+                     # every punctuation character of the value grammar as a separator: none, one, two, leading, trailing, alone
+                     'a/b/c', 'a//b', '/a', 'a/', '/', '1.2.3', '1..2', '.5', '5.', '.', 'a-b-c', '--', 'a_b_c', '_', 'text/x/markdown',
                      'a%b', '%s', '100%', '%(x)s', 'a b', 'a\\b', 'a{0}b']
         for hi in range(len(grid_base)):
             for key in grid_keys:
